@@ -235,7 +235,7 @@ func runCheck(cmd, id, repo, verif, tier string, keep bool, only string, verbose
 	outDir := filepath.Join(verif, "out", id)
 	os.RemoveAll(outDir)
 	os.MkdirAll(outDir, 0o755)
-	cfg := &SolverCfg{outDir: outDir, timeout: 15 * time.Second, first: 4 * time.Second, workers: runtime.NumCPU() / 2, seed: seed, keepSMT: keep}
+	cfg := &SolverCfg{outDir: outDir, timeout: 25 * time.Second, first: 4 * time.Second, workers: runtime.NumCPU() / 2, seed: seed, keepSMT: keep}
 	if tier == "thorough" {
 		cfg.timeout = 60 * time.Second
 		cfg.first = 5 * time.Second
